@@ -183,10 +183,10 @@ class Journal:
         return fs
 
 
-def gen_journal(rng, memo=False):
+def gen_journal(rng, memo=False, multi=False):
     j = Journal()
     j.explicit_time = set()
-    k = rng.choice([2, 2, 3, 3, 4, 5])
+    k = rng.choice([3, 3, 4, 5]) if multi else rng.choice([2, 2, 3, 3, 4, 5])
     comms = rng.sample(SYMS, k)
     j.comms = comms
     n = rng.randint(2, k)
@@ -195,9 +195,20 @@ def gen_journal(rng, memo=False):
     orient = rng.choice(['fwd', 'rev', 'mixed', 'mixed'])
     nent = rng.choice([1, 1, 2, 3, 4, 6, 8, 12, 20, 30])
     ndays = rng.choice([1, 2, 3, 3, 4, 6])
+    if multi:
+        # comms[0] is quoted directly in two or more commodities and never quotes anything itself
+        # (so that -V converts it); the older pair comes first in the file
+        n = rng.randint(3, k)
+        edges = [(comms[0], comms[i]) for i in range(1, n)]
+        chain = False
+        orient = 'fwd'
+        nent = rng.choice([0, 0, 1, 2, 4, 8])
+        ndays = rng.choice([2, 3, 4, 6])
     days = sorted(rng.sample(range(BASE + 3, BASE + 60), ndays))
     j.days = days
     j.shape = '%s-%d-edges' % ('chain' if chain else 'tree', len(edges)) if len(edges) > 1 else 'edge-' + orient
+    if multi:
+        j.shape = 'multiquote-%d' % len(edges)
     elems = []
     cn = 0
     for _ in range(nent):
@@ -257,6 +268,16 @@ def gen_journal(rng, memo=False):
         q, dec = rq(rng, 1, 999, (0, 1, 2))
         elems.append(('W', rng.choice(cand), q, dec, rng.choice(comms), i))
     rng.shuffle(elems)
+    j.v_days = cand
+    if multi:
+        i_old = rng.randrange(len(days) - 1)
+        i_new = rng.randrange(i_old + 1, len(days))
+        q1, d1 = rq(rng)
+        q2, d2 = rq(rng)
+        first = [('P', days[i_old] * 86400, comms[0], q1, d1, comms[1]),
+                 ('P', days[i_new] * 86400 + rng.choice([0, 0, 0, 43200]), comms[0], q2, d2, comms[2])]
+        elems = first + elems
+        j.v_days = [d for d in cand if d > days[i_new]] + ([days[i_new]] if first[1][1] % 86400 == 0 else [])
     j.elems = elems
     j.cand = cand
     if memo:
@@ -504,6 +525,19 @@ def judge(qr, ci):
                 if q2 != q:
                     bad.append(('bal-V:quantity-changed', 'unconverted amount altered', show_h(got), show_h({c: q})))
                 continue
+            # the title of the property: among all the commodities `c` is quoted in directly, the
+            # quote used is the most recent one not after D (an exact tie is left to ledger)
+            newest = {}
+            for when, s_, q_, t_ in facts:
+                if when <= D and s_ != t_ and c in (s_, t_):
+                    o = t_ if s_ == c else s_
+                    newest[o] = max(newest.get(o, when), when)
+            if lot is None and c2 in newest and any(w > newest[c2] for w in newest.values()):
+                best = max(newest, key=lambda o: newest[o])
+                bad.append(('bal-V:not-most-recent-quote',
+                            'account %s (%s %s) under -V --now %s is valued in %s, whose latest quote not after that date is older than the quote in %s'
+                            % (a, q, c, dstr(qr.day), c2, best), show_h(got), 'a value in %s' % best))
+                break
             try:
                 r = o_rate(facts, c, c2, D)
             except Undetermined:
@@ -587,7 +621,7 @@ def run(ctx, n_override=None):
     journals = []
     for ji in range(nj + nmemo):
         memo = ji >= nj
-        j = gen_journal(rng, memo)
+        j = gen_journal(rng, memo, multi=(not memo and ji % 8 == 3))
         j.path = ctx.path('j%d.dat' % ji)
         with open(j.path, 'w') as f:
             f.write(j.text())
@@ -606,7 +640,7 @@ def run(ctx, n_override=None):
         picks.add(rng.choice(j.days))
         for d in sorted(picks):
             queries.append(Query(j, 'bal', path=j.path, tgt=rng.choice(tree + ['ZZZ'] if rng.random() < 0.05 else tree), day=d))
-        for d in rng.sample(cand, 2):
+        for d in rng.sample(j.v_days, min(2, len(j.v_days))):
             queries.append(Query(j, 'bal', path=j.path, tgt=None, day=d))
         queries.append(Query(j, 'reg', path=j.path, tgt=rng.choice(tree), day=rng.choice(cand)))
         queries.append(Query(j, 'reg', path=j.path, tgt=None, day=rng.choice(cand)))
